@@ -65,6 +65,18 @@ def run(tier, seed, opens):
         tm = rng.choice([1231006505, 0, 0xffffffff, rng.getrandbits(32)])
         bits = rng.choice(BITS)
         nonce = rng.getrandbits(32)
+        if rng.random() < 0.15:
+            # header fields whose four bytes are hexadecimal digits in ASCII (about fifty mainnet nonces are)
+            asc = lambda: int.from_bytes(bytes(rng.choice(b'0123456789abcdefABCDEF') for _ in range(4)), 'big')
+            which = rng.randrange(4)
+            if which == 0:
+                nonce = asc()
+            elif which == 1:
+                version = asc()
+            elif which == 2:
+                tm = asc()
+            else:
+                nonce, version = asc(), asc()
         header = wire.le(version, 4) + prev[::-1] + merkle[::-1] + wire.le(tm, 4) + wire.le(bits, 4) + wire.le(nonce, 4)
         txs = [clean_tx(rng, tier) for _ in range(rng.choice([1, 1, 2, 3, 6]))]
         if rng.random() < 0.3:
